@@ -459,4 +459,14 @@ def check(c, tier, replay):
                       'TLC model checking is exhaustive only for the bounded instances listed in tlc_runs']
 
 
+_check_without_apalache = check
+
+
+def check(c, tier, replay):
+    _check_without_apalache(c, tier, replay)
+    if tier == 'thorough' and not replay:
+        import apalache
+        apalache.run(c)       # inductive invariant for an unbounded threshold / batch (extra evidence, see lib/apalache.py)
+
+
 main('C02', check)
